@@ -1,0 +1,21 @@
+//go:build verif
+// +build verif
+
+package memory
+
+import "time"
+
+// VerifShiftTime moves every stored timestamp back by d, which is
+// observationally the same as letting d of wall-clock time pass
+// (verification hook).
+func (s *memoryStore) VerifShiftTime(d time.Duration) {
+	s.mu.Lock()
+	defer s.mu.Unlock()
+	for id, n := range s.nodes {
+		n.LastSeen = n.LastSeen.Add(-d)
+		for p, t := range n.peers {
+			n.peers[p] = t.Add(-d)
+		}
+		s.nodes[id] = n
+	}
+}
